@@ -14,7 +14,7 @@ from experimaestro.xpmutils import DirectoryContext
 from xvschema import cfg as S
 
 CLS = {"K": S.K, "K2": S.K2, "K2Old": S.K2Old, "K2Older": S.K2Older, "V": S.V, "LW": S.LW, "T": S.T, "T0": S.T0, "T1": S.T1, "G": S.G,
-       "PX": S.PX, "QX": S.QX, "N": S.N, "DH": S.DH}
+       "PX": S.PX, "QX": S.QX, "N": S.N, "DH": S.DH, "GF": S.GF}
 
 
 def pyval(v, objs):
@@ -172,7 +172,7 @@ def rand_graph(rng, n=3, tasks=True):
     ids = [str(i + 1) for i in range(n)]
     g = {}
     for i in ids:
-        cls = rng.choice(["K", "K", "K", "K2", "K2Old", "K2Older", "V", "G", "G", "LW", "T0", "PX", "QX", "N", "DH"] if tasks else ["K", "K", "K2", "V", "G", "PX", "QX", "N"])
+        cls = rng.choice(["K", "K", "K", "K2", "K2Old", "K2Older", "V", "G", "G", "LW", "T0", "PX", "QX", "N", "DH", "GF"] if tasks else ["K", "K", "K2", "V", "G", "PX", "QX", "N", "GF"])
         vals = {}
 
         def ref():
@@ -213,7 +213,7 @@ def rand_graph(rng, n=3, tasks=True):
         elif cls == "DH":
             vals["n"] = ["int", rng.choice([0, 1])]
             vals["child"] = ["dflt"]     # resolved below
-        elif cls == "G":
+        elif cls in ("G", "GF"):
             vals["z"] = ref() if rng.random() < 0.7 else ["none"]
         elif cls == "LW":
             vals["k"] = ["int", rng.choice(INTS)]
